@@ -10,11 +10,17 @@ use crate::{
 };
 use tracing::{trace, warn};
 
+#[cfg(not(feature = "verif-hooks"))]
 use instant::{Duration, Instant};
 use std::collections::vec_deque::Drain;
+#[cfg(not(feature = "verif-hooks"))]
 use std::collections::{HashMap, HashSet, VecDeque};
 use std::convert::TryFrom;
 use std::ops::Add;
+#[cfg(feature = "verif-hooks")]
+use {crate::verif::rand, crate::verif::Instant, instant::Duration};
+#[cfg(feature = "verif-hooks")]
+use {crate::verif::HashMap, crate::verif::HashSet, std::collections::VecDeque};
 
 use super::network_stats::NetworkStats;
 
@@ -39,7 +45,12 @@ const QUALITY_REPORT_INTERVAL: Duration = Duration::from_millis(200);
 /// Number of old checksums to keep in memory
 pub const MAX_CHECKSUM_HISTORY_SIZE: usize = 32;
 
+#[cfg_attr(feature = "verif-hooks", allow(unreachable_code))]
 fn millis_since_epoch() -> u128 {
+    #[cfg(feature = "verif-hooks")]
+    {
+        return crate::verif::millis_since_epoch();
+    }
     #[cfg(not(target_arch = "wasm32"))]
     {
         std::time::SystemTime::now()
@@ -823,6 +834,28 @@ impl<T: Config> UdpProtocol<T> {
             checksum,
         };
         self.queue_message(MessageBody::ChecksumReport(body));
+    }
+}
+
+/// Read-only accessors for verification (feature `verif-hooks`).
+#[cfg(feature = "verif-hooks")]
+impl<T: Config> UdpProtocol<T> {
+    pub(crate) fn verif_sizes(&self) -> crate::verif::EndpointSizes {
+        crate::verif::EndpointSizes {
+            pending_output: self.pending_output.len(),
+            recv_inputs: self.recv_inputs.len(),
+            pending_checksums: self.pending_checksums.len(),
+            send_queue: self.send_queue.len(),
+            event_queue: self.event_queue.len(),
+            sync_random_requests: self.sync_random_requests.len(),
+            state: match self.state {
+                ProtocolState::Initializing => 0,
+                ProtocolState::Synchronizing => 1,
+                ProtocolState::Running => 2,
+                ProtocolState::Disconnected => 3,
+                ProtocolState::Shutdown => 4,
+            },
+        }
     }
 }
 
